@@ -20,6 +20,8 @@ impl FromSpecImpl<i64> for Value { open spec fn obeys_from_spec() -> bool { true
 impl From<i64> for Value { fn from(v: i64) -> Value { Value::Int(v) } }
 impl FromSpecImpl<u64> for Value { open spec fn obeys_from_spec() -> bool { true } open spec fn from_spec(v: u64) -> Value { Value::UInt(v) } }
 impl From<u64> for Value { fn from(v: u64) -> Value { Value::UInt(v) } }
+impl FromSpecImpl<bool> for Value { open spec fn obeys_from_spec() -> bool { true } open spec fn from_spec(v: bool) -> Value { Value::Bool(v) } }
+impl From<bool> for Value { fn from(v: bool) -> Value { Value::Bool(v) } }
 impl FromSpecImpl<chrono::Duration> for Value { open spec fn obeys_from_spec() -> bool { true } open spec fn from_spec(v: chrono::Duration) -> Value { Value::Duration(v) } }
 impl From<chrono::Duration> for Value { fn from(v: chrono::Duration) -> Value { Value::Duration(v) } }
 impl FromSpecImpl<chrono::DateTime<chrono::FixedOffset>> for Value { open spec fn obeys_from_spec() -> bool { true } open spec fn from_spec(v: chrono::DateTime<chrono::FixedOffset>) -> Value { Value::Timestamp(v) } }
